@@ -97,4 +97,34 @@ theorem xsd_types_rel {d : ClassDiagram} (tree : TreeOk d.containers) (comp : Na
 theorem global_contained_disjoint {cs : List Container} {root : Nat} {p : Parent} (h : Reaches cs root p) : InComp cs p :=
   reaches_inComp h
 
+/-! ### the two type loops of `build_schema` are disjoint -/
+
+/-- what is contained in a component is not global: both walks follow the same containers, and the one that reaches the
+    component passes a C_C row, where `is_global` stops with False (no hypothesis on the containment needed) -/
+theorem containedFuel_not_global (cs : List Container) (root : Nat) :
+    ∀ (f : Nat) (p : Parent), containedFuel cs root f p = true → globalFuel cs f p = false := by
+  intro f
+  induction f with
+  | zero => intro p h; simp [containedFuel] at h
+  | succ f ih =>
+    intro p h
+    cases p with
+    | none => simp [containedFuel] at h
+    | pkg q =>
+      simp only [containedFuel] at h
+      simp only [globalFuel]
+      cases hk : findContainer cs false q with
+      | none => simp [hk] at h
+      | some k => simp only [hk] at h ⊢; exact ih _ h
+    | comp c =>
+      simp only [containedFuel] at h
+      simp only [globalFuel]
+      cases hk : findContainer cs true c with
+      | none => simp [hk] at h
+      | some k => simp
+
+theorem contained_not_global (cs : List Container) (root : Nat) (p : Parent) (h : containedIn cs root p = true) :
+    isGlobal cs p = false :=
+  containedFuel_not_global cs root _ p h
+
 end Pyx.Extract
